@@ -483,9 +483,13 @@ func (c Cell) ContainsPoint(p Point) bool {
 	//   CellFromPoint(p).ContainsPoint(p)
 	//
 	// is always true. To do this, we need to account for the error when
-	// converting from (u,v) coordinates to (s,t) coordinates. In the
-	// normal case the total error is at most dblEpsilon.
-	return c.uv.ExpandedByMargin(dblEpsilon).ContainsPoint(uv)
+	// converting from (u,v) coordinates to (s,t) coordinates and back: the
+	// leaf is chosen through uvToST (a square root) and floor, while the
+	// cell's (u,v) bound comes back through stToUV, whose slope du/ds is
+	// more than 2 for |u| near 1/2. A point can therefore be assigned to a
+	// leaf whose (u,v) bound it misses by up to about 2.2 * dblEpsilon
+	// (1.37 * dblEpsilon has been observed), so dblEpsilon is not enough.
+	return c.uv.ExpandedByMargin(3 * dblEpsilon).ContainsPoint(uv)
 }
 
 // Encode encodes the Cell.
